@@ -7,6 +7,9 @@
   guarded-replacement  the iterate whose exponential is returned is replaced only inside the branch of the
         sufficient-decrease comparison `old_loss - new_loss >= ...`, by the candidate whose loss was just evaluated, and the
         recorded loss is updated in the same branch
+  residual-form / loss-form / gradient-form   the loss the line search compares and the gradient it steps along belong
+        together (gradient = derivative of that loss; C04's rules applied to this copy); the weight gradient gathers, for every
+        record, the marginal gradient at the record's own cell
   public-data-unmodified   the returned Dataset is built from the public frame and domain, and no method of PublicInference
         stores into / mutates self.public_data
 Not decided: 'never worse than uniform' as a numeric fact (depends on the line search's arithmetic).
@@ -64,6 +67,9 @@ def run(ctx):
         raise AnalysisError('entropic_mirror_descent: cannot identify the iterate whose exponential is returned')
     check_estimate(ctx, est, emd)
     check_unmodified(ctx)
+    from .C04 import check_loss
+    check_loss(ctx, repo.func(PI, 'PublicInference._marginal_loss'))
+    check_weight_gradient(ctx, est)
 
 
 def check_guard(ctx, fi, var):
@@ -192,3 +198,34 @@ def check_unmodified(ctx):
              for s in ast.walk(init.node))
     ctx.ob('public-data-unmodified', init, init.node, ok, 'constructor keeps the caller\'s public dataset object as is',
            construct='self.public_data = ' + init.params[1])
+
+
+def check_weight_gradient(ctx, est):
+    """loss_and_grad: marginals are those of the public records under the candidate weights; d loss / d weight_i is the sum over
+    measured cliques of the marginal gradient at record i's cell"""
+    inner = [n for n in est.node.body if isinstance(n, ast.FunctionDef)]
+    if len(inner) != 1:
+        raise AnalysisError('PublicInference.estimate: loss_and_grad closure not found')
+    f = inner[0]
+    w = f.args.args[0].arg
+    defs = {s.targets[0].id: s for s in ast.walk(f) if isinstance(s, ast.Assign) and len(s.targets) == 1 and isinstance(s.targets[0], ast.Name)}
+    ds = [s for s in defs.values() if isinstance(s.value, ast.Call) and U(s.value.func) == 'Dataset']
+    ok = len(ds) == 1 and [U(a) for a in ds[0].value.args] == ['self.public_data.df', 'self.public_data.domain', w]
+    ctx.ob('gradient-form', est, ds[0] if ds else f, ok, 'candidate dataset = public records and domain with the candidate weights `%s`' % w)
+    est_name = ds[0].targets[0].id if ds else None
+    loops = [s for s in f.body if isinstance(s, ast.For)]
+    ok = False
+    where = f
+    if len(loops) == 1 and isinstance(loops[0].target, ast.Name) and est_name:
+        cl = loops[0].target.id
+        body = loops[0].body
+        idx = [s for s in body if isinstance(s, ast.Assign)]
+        acc = [s for s in body if isinstance(s, ast.AugAssign)]
+        if len(idx) == 1 and len(acc) == 1:
+            where = acc[0]
+            i = idx[0].targets[0].id
+            ok = U(idx[0].value) == '%s.project(%s).df.values' % (est_name, cl) and isinstance(acc[0].op, ast.Add) and \
+                U(acc[0].value).replace(' ', '') == '%s[%s].values[tuple(%s.T)]' % (U(loops[0].iter), cl, i)
+    ctx.ob('gradient-form', est, where, ok,
+           'd loss / d weight of a record = sum over measured cliques of the marginal gradient at the record\'s own cell '
+           '(cells looked up through the projected frame of the same clique)')
